@@ -164,6 +164,7 @@ impl POracleTable {
                 sexp::tagged("q", vec![l[2].clone(), ans])
             }
             Some("r") => sexp::tagged("r", vec![l[2].clone(), sexp::boolean(Regex::new(text).is_ok())]),
+            Some("n") => sexp::tagged("n", vec![l[2].clone(), sexp::boolean(Regex::new(text).map(|re| re.captures("").is_some()).unwrap_or(false))]),
             _ => return false,
         };
         self.entries.insert(e.to_text(), e);
@@ -292,7 +293,7 @@ pub fn run(rep: &mut Report, tier: &str, seed: u64) {
     let pool = pool();
     for ci in 0..n {
         let mut r = root.fork(ci as u64);
-        let opts = Opts { fragment: false, fault_pct: 0, max_stanzas: 4, allow_print: true, universal: r.chance(1, 4), probe: r.chance(1, 5), scoped_heavy: r.chance(1, 4), keywordish_names: true };
+        let opts = Opts { fragment: false, fault_pct: 0, max_stanzas: 4, allow_print: true, universal: r.chance(1, 4), probe: r.chance(1, 5), scoped_heavy: r.chance(1, 4), keywordish_names: true, static_fault: 0 };
         let program = gen_program(&mut r, &pool, &opts);
         let damaged = ci % 3 == 2;
         let text = if ci % 6 == 0 { program.text.clone() } else { relayout(&mut r, &program.text) };
